@@ -134,8 +134,11 @@ def ev(fn, n, atom=None, depth=0):
             return 1 if (ev(fn, n.kids[0], atom, depth + 1) and ev(fn, n.kids[1], atom, depth + 1)) else 0
         if op == "||":
             return 1 if (ev(fn, n.kids[0], atom, depth + 1) or ev(fn, n.kids[1], atom, depth + 1)) else 0
-        if op in ("=", ","):
-            raise Unevaluable(op)
+        if op == "=":
+            # value of an assignment expression: the converted right-hand side
+            return wrap(ev(fn, n.kids[1], atom, depth + 1), n.t)
+        if op == ",":
+            return ev(fn, n.kids[1], atom, depth + 1)
         a = ev(fn, n.kids[0], atom, depth + 1)
         b = ev(fn, n.kids[1], atom, depth + 1)
         if op == "+":
@@ -426,3 +429,34 @@ def is_errno(n):
             c = strip(m.kids[0])
             return c is not None and c.k == "CallExpr" and c.callee == "__errno_location"
     return False
+
+
+def reach(fn, target_nodes, atom, start="entry", barrier=None, forbid=None):
+    """Is any of target_nodes reachable from start when evaluable branches are forced under atom?"""
+    e = forced_edges(fn, atom, forbid=forbid)
+    for t in target_nodes:
+        if t == "exit":
+            if fn.find_path(start, "exit", barrier=barrier, edge_ok=e) is not None:
+                return True
+        elif fn.find_path(start, lambda n, t=t: n is t, barrier=barrier, edge_ok=e) is not None:
+            return True
+    return False
+
+
+def atomic_ops(fn, rec, field, kinds=None):
+    """Atomic RMW / store events on a field."""
+    out = []
+    for s in fn.stores_to(rec, field):
+        if s.kind in ("atomic", "sync") and (kinds is None or s.aop in kinds):
+            out.append(s)
+    return out
+
+
+def ret_const(fn, r):
+    if not r.kids:
+        return None
+    v = r.kids[0]
+    if v.cv is not None:
+        return v.cv
+    v2 = fn.resolve(v)
+    return v2.cv if v2 is not None else None
